@@ -74,6 +74,7 @@ pub struct Exec<const V: usize> {
     pub pending_exhaustive: bool,
     pub moved_since_start: u64,
     pub used_after_gc: Vec<usize>,
+    pub used_after_empty_gc: Vec<usize>,
     pub eph_model: Vec<(u64, u64)>,
     pub dead_addrs: Vec<(usize, u64, usize)>,
     pub in_marking_ops: u64,
@@ -205,6 +206,7 @@ impl<const V: usize> Exec<V> {
             pending_exhaustive: false,
             moved_since_start: 0,
             used_after_gc: vec![],
+            used_after_empty_gc: vec![],
             eph_model: vec![],
             dead_addrs: vec![],
             in_marking_ops: 0,
@@ -2243,6 +2245,12 @@ impl<const V: usize> Exec<V> {
 
         let used = mm::used_bytes(self.mmtk);
         self.used_after_gc.push(used);
+        // C09: used bytes after an exhaustive GC that found nothing reachable
+        // (the shadow heap is completely empty: nothing reachable, nothing retained for finalization,
+        // nothing in a never-collected space)
+        if exhaustive && self.objs.is_empty() {
+            self.used_after_empty_gc.push(used);
+        }
         if std::env::var("VH_TRACE").is_ok() {
             let infos: Vec<String> = mmtk::verif::space_infos(self.mmtk).iter().map(|s| format!("{}:r{}c{}", s.name, s.reserved_pages, s.committed_pages)).collect();
             eprintln!("  after GC #{}: used={} total={} nursery={:?} live_objs={} spaces={:?}", self.gcs_seen, used, mm::total_bytes(self.mmtk), nursery, self.objs.len(), infos);
